@@ -20,7 +20,7 @@ const verifUniverse = 4
 // for at that point) the right certificate, a forged variant of it, or the
 // right certificate of the following instance (out of sequence).  It returns
 // the responses and whether any response contains a forged certificate.
-func verifScript(all []*certs.FinalityCertificate, first uint64, next uint64, nresp int) (resps [][]byte, forged bool, pending0 uint64, count0 int, kind0 int) {
+func verifScript(all []*certs.FinalityCertificate, tidx []int, first uint64, next uint64, nresp int) (resps [][]byte, forged bool, pending0 uint64, count0 int, kind0 int) {
 	for r := 0; r < nresp; r++ {
 		pending := uint64(sym.Uint8("pending"))
 		sym.Assume(pending < 20)
@@ -47,7 +47,7 @@ func verifScript(all []*certs.FinalityCertificate, first uint64, next uint64, nr
 				cs = append(cs, all[idx+1]) // skips one instance
 				pos += 2
 			default:
-				cs = append(cs, certs.VerifForge(all[idx], idx, kind-1))
+				cs = append(cs, certs.VerifForge(all[idx], tidx[idx], kind-1))
 				forged = true
 				pos++
 			}
@@ -67,7 +67,9 @@ func verifScript(all []*certs.FinalityCertificate, first uint64, next uint64, nr
 func VerifC16_PollerByzantine() {
 	ctx := context.Background()
 	const first = uint64(0)
-	all, tables := certs.VerifCertSeq(first, verifUniverse)
+	// committee evolution with an instance that leaves the table unchanged
+	tidx := []int{0, 1, 1, 2, 3}
+	all, tables := certs.VerifCertSeqTables(first, tidx)
 	held := sym.Choice("held", 2)
 	cs := certstore.VerifNewStoreWith(first, tables[0], all[:held]...)
 	h := &certexchange.VerifHost{}
@@ -78,14 +80,17 @@ func VerifC16_PollerByzantine() {
 	}
 	sym.Assert(p.NextInstance == first+uint64(held), "poller-starts-after-latest")
 	// the local GPBFT instance may have finished meanwhile
-	local := sym.Choice("local", 2)
+	local := sym.Choice("local", 3)
+	if held+local >= verifUniverse {
+		sym.Assume(false)
+	}
 	for _, c := range all[held : held+local] {
 		if err := cs.Put(ctx, c); err != nil {
 			panic(err)
 		}
 	}
 	start := first + uint64(held+local)
-	resps, forged, pending0, count0, kind0 := verifScript(all, first, start, 1+sym.Choice("more-responses", 2))
+	resps, forged, pending0, count0, kind0 := verifScript(all, tidx, first, start, 1+sym.Choice("more-responses", 2))
 	h.Responses = resps
 
 	res, err := p.Poll(ctx, "peer")
